@@ -2,7 +2,8 @@
  * (only that variant is instantiated) and the C harness main (which knows what to expect).  Every variant occurs across the grid. */
 #ifndef LOG_VARIANT_H
 #define LOG_VARIANT_H
-#define VAR_FORM(m, f, s) (((m) + (f) + (s)) % 2)                 /* 0 = one expression, 1 = named stream object filled over several statements */
+#define VAR_FORM(m, f, s) (((m) + (f) + (s)) % 3)                 /* 0 = one expression, 1 = named stream object filled over several statements,
+                                                                      2 = named stream object, with ANOTHER statement of the same severity issued while it is open */
 #define VAR_TAG(m, f, s) (((m) + 2 * (f) + (s) / 2) % 2)          /* with / without tag */
 #define VAR_NLAZY(m, f, s) (((m) * 5 + (f) * 3 + (s)) % 3)        /* number of lazily evaluated callables streamed */
 #define VAR_SEV2(m, f, s) (((s) * 2 + (m) + (f)) % 7)             /* severity of the second statement, 6 = none */
